@@ -305,4 +305,20 @@ def N9():   # detected values the rule syntax cannot carry: the generated file d
         shutil.rmtree(root, ignore_errors=True)
 
 
+def N15():  # a secret in a blob that a tag points at directly is reported but cannot be replaced
+    root, repo = new_repo()
+    try:
+        commit(repo, {'f': 'hello'}, 'c1')
+        tok = 'ghp_' + 'a1B2' * 9
+        sh(repo, f'git tag blobtag $(echo "token {tok} end" | git hash-object -w --stdin)')
+        rc, _, _ = tool(repo, '--detect-secrets')
+        rules = os.path.join(root, 'rules.txt'); shutil.move(os.path.join(repo, 'detected-secrets.txt'), rules)
+        reported = tok in open(rules).read()
+        rc2, _, _ = tool(repo, '--force', '--replace-text', rules)
+        still = tok in e2e.git(repo, 'cat-file', 'blob', 'blobtag').decode()
+        return rc != 0 or rc2 != 0 or (reported and still)
+    finally:
+        shutil.rmtree(root, ignore_errors=True)
+
+
 RECIPES = {k: v for k, v in list(globals().items()) if callable(v) and k[0] in 'FNR' and k[1:].isdigit()}
